@@ -1,5 +1,6 @@
 import PewDriver.Util
 import PewModel.Colocal
+import PewModel.ColocalNd
 open Lean
 namespace PewDriver.C14
 open PewDriver Pew.Colocal
@@ -9,6 +10,14 @@ def mkImg (n0 n1 : Nat) (data : Array Rat) : Img Rat :=
 
 def mkMask (n0 n1 : Nat) (data : Array Bool) : Nat → Nat → Bool :=
   fun i j => if i < n0 ∧ j < n1 then data.getD (i * n1 + j) false else false
+
+def mkNd (shape : List Nat) (data : Array Rat) : NdImg Rat :=
+  { shape := shape, get := fun c => if ltAll c shape then data.getD (ravel shape c) 0 else 0 }
+
+def mkMaskNd (shape : List Nat) (data : Array Bool) : List Nat → Bool :=
+  fun c => if ltAll c shape then data.getD (ravel shape c) false else false
+
+def flatNd (a : NdImg Rat) : List Rat := (coords a.shape).map a.get
 
 def flat (a : Img Rat) : List Rat := (pixels a.n0 a.n1).map (fun q => a.get q.1 q.2)
 
@@ -50,13 +59,17 @@ def handle (op : String) (req : Json) : R Json := do
     let part ← getBool req "partial"
     let nidx ← fld req "nidx" >>= asOpt (asList asNat)
     let outd ← fld req "out" >>= asOpt (asList asRat)
-    let aliases ← getBool req "aliases"
+    let cC ← getBool req "c_contig"
+    let fC ← getBool req "f_contig"
     if xd.length ≠ n0 * n1 ∨ md.length ≠ n0 * n1 then throw "data/shape mismatch"
     if b0 = 0 ∨ b1 = 0 then throw "zero block"
     let x := mkImg n0 n1 xd.toArray
     let mask := mkMask n0 n1 md.toArray
     let idx := shuffleIdx x mask b0 b1 padMode part
-    let model := nidx.map (fun s => flat (shuffleBlocksLayout aliases x mask b0 b1 padMode part s))
+    let aliases := layoutAliases padMode cC fC
+    -- the call as the code does it (the mask is copied before the in-place trim)
+    let call := nidx.map (fun s => shuffleCall true aliases x mask b0 b1 padMode part s)
+    let maskFlat (m : Nat → Nat → Bool) : List Bool := (pixels n0 n1).map (fun q => m q.1 q.2)
     let spec ← match outd with
       | none => pure Json.null
       | some od =>
@@ -67,7 +80,50 @@ def handle (op : String) (req : Json) : R Json := do
                     ("blocks_from_input", jBool (specBlocks x out mask b0 b1 padMode part)),
                     ("conserved_applies", jBool applies),
                     ("conserved", jBool (!applies || specConserved x out))])
-    pure (jObj [("idx", jList jNat idx), ("model", jOpt (jList jRat) model), ("spec", spec)])
+    pure (jObj [("idx", jList jNat idx), ("aliases", jBool aliases),
+                ("model", jOpt (jList jRat) (call.map (fun c => flat c.ret))),
+                ("x_after", jOpt (jList jRat) (call.map (fun c => flat c.xAfter))),
+                ("mask_after", jList jBool (maskFlat (shuffleCall true aliases x mask b0 b1 padMode part idx).maskAfter)),
+                ("spec", spec)])
+  | "c14.shuffle_nd" =>
+    let shape ← getList asNat req "shape"
+    let block ← getList asNat req "block"
+    let xd ← getList asRat req "x"
+    let md ← getList asBool req "mask"
+    let padMode ← getBool req "pad"
+    let part ← getBool req "partial"
+    let nidx ← fld req "nidx" >>= asOpt (asList asNat)
+    let outd ← fld req "out" >>= asOpt (asList asRat)
+    let cC ← getBool req "c_contig"
+    let fC ← getBool req "f_contig"
+    if block.length ≠ shape.length then throw "block/shape rank mismatch"
+    if xd.length ≠ prodL shape ∨ md.length ≠ prodL shape then throw "data/shape mismatch"
+    if block.any (· == 0) then throw "zero block"
+    let x := mkNd shape xd.toArray
+    let mask := mkMaskNd shape md.toArray
+    let idx := shuffleIdxNd x mask block padMode part
+    let aliases := layoutAliases padMode cC fC
+    let call := nidx.map (fun s => shuffleCallNd true aliases x mask block padMode part s)
+    let maskFlat (m : List Nat → Bool) : List Bool := (coords shape).map m
+    let spec ← match outd with
+      | none => pure Json.null
+      | some od =>
+        if od.length ≠ prodL shape then throw "out/shape mismatch"
+        let out := mkNd shape od.toArray
+        let applies := conservedAppliesNd x block padMode
+        pure (jObj [("outside_fixed", jBool (specOutsideNd x out mask block padMode part)),
+                    ("blocks_from_input", jBool (specBlocksNd x out mask block padMode part)),
+                    ("conserved_applies", jBool applies),
+                    ("conserved", jBool (!applies || specConservedNd x out))])
+    pure (jObj [("idx", jList jNat idx), ("aliases", jBool aliases),
+                ("model", jOpt (jList jRat) (call.map (fun c => flatNd c.ret))),
+                ("x_after", jOpt (jList jRat) (call.map (fun c => flatNd c.xAfter))),
+                ("mask_after", jList jBool (maskFlat (shuffleCallNd true aliases x mask block padMode part idx).maskAfter)),
+                ("spec", spec)])
+  | "c14.prob_domain" =>
+    let shape ← getList asNat req "shape"
+    let n ← getNat req "n"
+    pure (jObj [("raises", jBool (probRaises shape n))])
   | "c14.prob" =>
     let n0 ← getNat req "n0"
     let n1 ← getNat req "n1"
@@ -76,6 +132,8 @@ def handle (op : String) (req : Json) : R Json := do
     let md ← getList asBool req "mask"
     let b ← getNat req "block"
     let part ← getBool req "partial"
+    let yC ← getBool req "y_c_contig"
+    let yF ← getBool req "y_f_contig"
     let sigmas ← getList (asList asNat) req "sigmas"
     if xd.length ≠ n0 * n1 ∨ yd.length ≠ n0 * n1 ∨ md.length ≠ n0 * n1 then throw "data/shape mismatch"
     if b = 0 then throw "zero block"
@@ -84,14 +142,20 @@ def handle (op : String) (req : Json) : R Json := do
     let mask := mkMask n0 n1 md.toArray
     let xs := masked x mask
     let ys := masked y mask
-    let steps := probSteps x y mask b part sigmas
+    -- the run as the code does it: mask copied inside every call, `shuffled = y.copy()`
+    let run := probRun true true yC yF y mask b part sigmas
+    let steps := probStepsOf x y run
+    let maskFlat (m : Nat → Nat → Bool) : List Bool := (pixels n0 n1).map (fun q => m q.1 q.2)
     pure (jObj [("idx", jList jNat (shuffleIdx y mask b b false part)),
                 ("n_masked", jNat xs.length),
                 ("cov", jRat (cov xs ys)), ("var_x", jRat (var xs)), ("var_y", jRat (var ys)),
                 ("mean_xy", jRat (mean (mulL xs ys))), ("mean_x", jRat (mean xs)), ("mean_y", jRat (mean ys)),
                 ("steps", jList (fun (s : ProbStep) =>
-                    jObj [("cov", jRat s.cov), ("var_y", jRat s.vy), ("gt", jBool s.gt), ("same", jBool s.same)]) steps),
-                ("p", jRat (pearsonProbability x y mask b part sigmas))])
+                    jObj [("n", jNat s.n), ("cov", jRat s.cov), ("var_x", jRat s.vx), ("var_y", jRat s.vy),
+                          ("gt", jBool s.gt), ("same", jBool s.same)]) steps),
+                ("mask_unchanged", jBool (maskFlat run.final.mask == maskFlat mask)),
+                ("y_unchanged", jBool (flat run.final.yMem.caller == flat y)),
+                ("p", jOpt jRat (probability (steps.map (·.gt))))])
   | _ => throw s!"unknown op {op}"
 
 end PewDriver.C14
